@@ -534,11 +534,14 @@ func knownDefectReplays(st *Stats) {
 			st.Fail("known-J-parenthesised-spread-after-question-rejected-by-ts-loader", map[string]string{"scenario": "known-J", "javascript": jsJ, "options": "target=es2015"}, eb+b, a)
 		}
 	}
-	// H: ExpectGreaterThan/maybeExpandEquals never forms "===" after splitting ">="
-	typed, untyped := "x = a as Array<number>===b;\n", "x = a ===b;\n"
-	jsOut, _ := transformText(untyped, api.TransformOptions{Loader: api.LoaderJS, LogLevel: api.LogLevelSilent})
-	tsOut, tsErr := transformText(typed, api.TransformOptions{Loader: api.LoaderTS, LogLevel: api.LogLevelSilent})
-	if tsErr != "" || tsOut != jsOut {
-		st.Fail("known-H-type-arguments-followed-by-strict-equals-rejected", map[string]string{"scenario": "known-H", "typed": typed, "untyped": untyped}, tsErr+tsOut, jsOut)
+	// H (fixed in /repo by 8c00bb7, must pass now): "===" directly after a type-argument list
+	for _, pr := range [][2]string{{"x = a as Array<number>===b;\n", "x = a ===b;\n"}, {"x = a as Array<number>==b;\n", "x = a ==b;\n"},
+		{"x = a as A<B<C>>===b;\n", "x = a ===b;\n"}, {"x = a as Array<number>=== b ? c : d;\n", "x = a === b ? c : d;\n"}} {
+		jsOut, _ := transformText(pr[1], api.TransformOptions{Loader: api.LoaderJS, LogLevel: api.LogLevelSilent})
+		tsOut, tsErr := transformText(pr[0], api.TransformOptions{Loader: api.LoaderTS, LogLevel: api.LogLevelSilent})
+		st.Note("corpus-H", pr[0], true)
+		if tsErr != "" || tsOut != jsOut {
+			st.Fail("type-arguments-followed-by-strict-equals-rejected", map[string]string{"typed": pr[0], "untyped": pr[1]}, tsErr+tsOut, jsOut)
+		}
 	}
 }
